@@ -4,7 +4,7 @@ SPEC = {
     "runners": [{
         "kind": "wqcases", "module": "CorrC05", "harness": "wqscript", "prop": "C05",
         "corr": "Run/CorrC05.v + Run/CorrWQ.v (model of the work queue vs /repo/workqueue, scripted schedules)",
-        "rule": "each case = one script (stimuli Enqueue(priority, adjust?)/work completion/adjust-function value change/SetPriority, one at a time, quiescence detected from goroutine stacks) run on the real queue and replayed in Coq on Model/WQ.v with every interleaving of internal steps explored; observed = which work functions start after each stimulus, which Enqueue calls returned, WorkItems(), adjust-function consultations. Generated as: refutation witnesses of Findings/WQ.v first, every word over a small stimulus alphabet (small scope), adaptive random scripts that fill the queue. distinct = by (W, L, stimulus list); every third random script and three corpus scripts use priorities, adjust-function values and SetPriority arguments at the ends of the int range (math.MinInt, MinInt+1, -2..1, MaxInt-1, MaxInt; passed to Coq as Z literals, where nothing overflows); a stimulus whose API call has not returned at a quiescent moment ends the script and is a violation by itself. 24 runs (thorough 200) of the held-adjust-function scenario: the harness parks the dispatcher inside an adjust function, lets a completion and an arrival pile up (batch stimulus, one observation), releases it, so that an arrival and a completion token compete at the dispatcher's select - replayed in Coq with the batch's labels in order and ANY internal steps in between; black-box clause: right after Enqueue(p) WorkItems() lists the item with priority p. non-trivial = some work function started while another accepted item was still waiting (a contested dispatch happened).",
+        "rule": "each case = one script (stimuli Enqueue(priority, adjust?)/work completion/adjust-function value change/SetPriority, one at a time, quiescence detected from goroutine stacks) run on the real queue and replayed in Coq on Model/WQ.v with every interleaving of internal steps explored; observed = which work functions start after each stimulus, which Enqueue calls returned, WorkItems(), adjust-function consultations. Generated as: refutation witnesses of Findings/WQ.v first, every word over a small stimulus alphabet (small scope), adaptive random scripts that fill the queue. distinct = by (W, L, stimulus list); every third random script and three corpus scripts use priorities, adjust-function values and SetPriority arguments at the ends of the int range (math.MinInt, MinInt+1, -2..1, MaxInt-1, MaxInt; passed to Coq as Z literals, where nothing overflows); a stimulus whose API call has not returned at a quiescent moment ends the script and is a violation by itself. 24 runs (thorough 200) of the held-adjust-function scenario: the harness parks the dispatcher inside an adjust function, lets a completion and an arrival pile up (batch stimulus, one observation), releases it, so that an arrival and a completion token compete at the dispatcher's select - replayed in Coq with the batch's labels in order and ANY internal steps in between; black-box clause: right after Enqueue(p) WorkItems() lists the item with priority p. every third held-adjust run is the two-tokens variant (two workers; two completion tokens are pending when the parked dispatcher is released: three decisions follow and each must consult the waiting adjust function - consultations are counted in the observation of the batch). non-trivial = some work function started while another accepted item was still waiting (a contested dispatch happened).",
     }],
     "trusted": ["channels, select, sync.Map, atomics, context are modelled by contract (one step each)",
                 "quiescence detector (all goroutines blocked in two consecutive runtime.Stack snapshots)",
